@@ -320,6 +320,9 @@ pub fn boundary_spaces(n: usize) -> Vec<Space> {
 pub const ALIAS_ATOMS: &[&str] = &[
     "\u{40a}", "\u{420}", "\u{422}", "\u{425}", "\u{426}", "\u{427}", "\u{428}", "\u{429}", "\u{42a}", "\u{42c}",
     "\u{42e}", "\u{42f}", "\u{43b}", "\u{43d}", " ", "a", "%m", "&v", ";", "1",
+    // line-break and blank look-alikes that are not '\n' / ' ': lone CR, form feed, NEL, LINE
+    // SEPARATOR; a combining mark and a zero-width space (neither blank nor name character)
+    "\r", "\u{c}", "\u{85}", "\u{2028}", "\u{301}", "\u{200b}",
 ];
 
 pub fn alias_spaces(n: usize) -> Vec<Space> {
